@@ -28,6 +28,7 @@ def run(check: Check, repo: Repo, tier: str) -> None:
     L.order_agree(check, repo, model, sides=("keys",), floor=25)
     n = L.pop_guard(check, repo)
     check.floor("POP-GUARD", 4, "zero-argument pops in visit()")
+    L.kind_of_current_node(check, repo)
     L.sentinel_twins(check, repo)
     L.edit_sentinel(check, repo)
     L.result_filter(check, repo)
